@@ -306,6 +306,51 @@ def ctor_errors(ctx: Ctx):
             ctx.disagree("ctor:RotationConversionTranspiler", {"target_rotation": a, "favorable_clifford": b, "forms": [fa, fb]}, got, want)
 
 
+def describe_circ2(c):
+    """c01.describe_circ plus the classical register (cbit_count, classical_indices of Measurement gates)"""
+    d = c01.describe_circ(c)
+    try:
+        d["cbit_count"] = c.cbit_count
+        for e, g in zip(d["gates"], c.gates):
+            if tuple(getattr(g, "classical_indices", ())):
+                e["classical_indices"] = list(g.classical_indices)
+    except Exception:  # noqa: BLE001
+        pass
+    return d
+
+
+def with_measurements(rng, circ, cb=None, k=None):
+    """the same gate list in a circuit that owns classical bits, with k Measurement gates (mid-circuit or final) inserted:
+    the non-unitary gate kind of the vocabulary, which no preset promises"""
+    from quri_parts.circuit import QuantumCircuit, gates
+
+    n = circ.qubit_count
+    cb = cb or rng.randint(1, 3)
+    gs = list(circ.gates)
+    for _ in range(rng.randint(1, 3) if k is None else k):
+        m = rng.randint(1, min(n, cb, 2))
+        meas = gates.Measurement(rng.sample(range(n), m), rng.sample(range(cb), m))
+        pos = len(gs) if rng.random() < 0.4 else rng.randint(0, len(gs))
+        gs.insert(pos, meas)
+    return QuantumCircuit(n, cb, gates=gs)
+
+
+def measured_probes(rng):
+    """fixed small circuits with a classical register: Measurement final / mid-circuit / alone / on two qubits / unused cbits"""
+    from quri_parts.circuit import QuantumCircuit, gates
+
+    M = gates.Measurement
+    return [
+        QuantumCircuit(2, 1, gates=[gates.H(0), gates.CNOT(0, 1), gates.RX(1, 0.3), M([0], [0]), gates.T(1)]),
+        QuantumCircuit(2, 2, gates=[gates.H(0), gates.CNOT(0, 1), M([0, 1], [1, 0])]),
+        QuantumCircuit(1, 1, gates=[M([0], [0])]),
+        QuantumCircuit(3, 3, gates=[M([2], [2]), gates.RZ(2, 0.7), gates.Identity(1), gates.RZ(2, 0.2), M([2], [0])]),
+        QuantumCircuit(3, 1, gates=[gates.TOFFOLI(0, 1, 2), gates.SWAP(0, 2), M([1], [0]), gates.U3(0, 0.1, 0.2, 0.3)]),
+        QuantumCircuit(2, 2, gates=[gates.H(1), gates.RY(0, 1.1), gates.S(1)]),  # classical bits owned but unused
+        QuantumCircuit(2, 1, gates=[M([1], [0]), M([0], [0])]).freeze(),
+    ]
+
+
 def _violations(out, n, target, rot_only=False):
     """which clauses of the property the returned circuit falsifies: {clause: description}"""
     og = list(out.gates)
@@ -330,9 +375,10 @@ def _shrink(circ, still_bad):
 
     try:
         gs = list(circ.gates)
+        cb = getattr(circ, "cbit_count", 0)
         i = 0
         while i < len(gs) and len(gs) > 1:
-            trial = QuantumCircuit(circ.qubit_count, gates=gs[:i] + gs[i + 1:])
+            trial = QuantumCircuit(circ.qubit_count, cb, gates=gs[:i] + gs[i + 1:])
             try:
                 keep = still_bad(trial)
             except Exception:  # noqa: BLE001 – raising is not a violation
@@ -341,7 +387,7 @@ def _shrink(circ, still_bad):
                 gs = gs[:i] + gs[i + 1:]
             else:
                 i += 1
-        return QuantumCircuit(circ.qubit_count, gates=gs)
+        return QuantumCircuit(circ.qubit_count, cb, gates=gs)
     except Exception:  # noqa: BLE001
         return circ
 
@@ -369,7 +415,18 @@ def validate(ctx: Ctx, budget_s: float):
         else:
             pool[rng.randrange(len(pool))] = entry
 
-    while time.time() - t0 < budget_s:
+    # deterministic part: every preset (and a few explicit target lists, with and without Measurement in the list) on
+    # circuits that own classical bits and contain Measurement gates
+    det = []
+    for mc in measured_probes(rng):
+        for name in PROMISED:
+            det.append(((lambda nm=name: getattr(T, nm)()), PROMISED[name], name, False, mc))
+        det.append(((lambda: T.CliffordRZSetTranspiler(1.0e-6)), PROMISED["CliffordRZSetTranspiler"], "CliffordRZSetTranspiler(1e-6)", False, mc))
+        for tl in (["H", "RZ", "CNOT"], ["H", "RZ", "CNOT", "Measurement"], ["RX", "RY", "RZ", "CZ", "Measurement"], ["Measurement"]):
+            det.append(((lambda tl=tl: T.GateSetConversionTranspiler(tl)), set(tl), f"GateSetConversion({tl};list;3)", False, mc))
+        det.append(((lambda: T.RotationConversionTranspiler(["RZ"], ["H"])), {"RZ"}, "RotationConversion(['RZ'],['H'];list)", True, mc))
+    while det or time.time() - t0 < budget_s:
+        fixed = det.pop() if det else None
         n = rng.choice([1, 2, 3, 3, 4, 4, 5, 6])
         circ = c01.random_real_circuit(rng, n, rng.choice([0, 1, 2, 4, 6, 8, 12]), full)
         if rng.random() < 0.3 and n >= 2:  # the last qubit is used (an off-by-one in a register bound would show)
@@ -378,12 +435,19 @@ def validate(ctx: Ctx, budget_s: float):
         if rng.random() < 0.15 and n >= 3:
             q = rng.sample(range(n), 3)
             circ.add_gate(gates.UnitaryMatrix(q, dense.random_unitary(rng, 8).tolist()))
+        measured = rng.random() < 0.15
+        if measured:  # classical register + the non-unitary gate kind
+            circ = with_measurements(rng, circ)
+        elif rng.random() < 0.1:  # classical bits owned but unused
+            circ = with_measurements(rng, circ, k=0)
         if rng.random() < 0.3:
             circ = circ.freeze()
         r = rng.random()
         rot_only = False
         entry = None
-        if pool and r < 0.25:
+        if fixed is not None:
+            make, target, label, rot_only, circ = fixed
+        elif pool and r < 0.25:
             entry = rng.choice(pool)
             make, target, label, rot_only = entry["make"], entry["target"], entry["label"], entry["rot_only"]
             if rng.random() < 0.5:  # the very input of an earlier call (which may have raised then) on the same object
@@ -409,6 +473,8 @@ def validate(ctx: Ctx, budget_s: float):
                 s.append(rng.choice(["CNOT", "CZ"]))
             if rng.random() < 0.8 and not ({"RX", "RY", "RZ"} & set(s)):
                 s.append(rng.choice(["RX", "RY", "RZ"]))
+            if measured and rng.random() < 0.5:
+                s.append("Measurement")
             eps = rng.choice([1e-9, 1e-9, 1e-6, 1e-12])
             form, mk = in_form(rng, s)
             style = rng.randrange(4)
@@ -429,6 +495,8 @@ def validate(ctx: Ctx, budget_s: float):
             out = tr(circ)
         except Exception as e:  # allowed
             ctx.count("validate", "raised:" + type(e).__name__)
+            if getattr(circ, "cbit_count", 0):
+                ctx.count("validate", "raised-with-cbits")
             if tr is not None and entry is None and rng.random() < 0.5:
                 remember({"make": (lambda tr=tr: tr), "target": target, "label": label + "[re-used]", "rot_only": rot_only, "calls": [circ]})
             continue
@@ -437,17 +505,19 @@ def validate(ctx: Ctx, budget_s: float):
         try:
             v = _violations(out, circ.qubit_count, target, rot_only)
         except Exception as e:  # noqa: BLE001
-            ctx.disagree("validate:" + label.split("(")[0], c01.describe_circ(circ), f"result cannot be inspected: {type(e).__name__}: {e}", "a circuit")
+            ctx.disagree("validate:" + label.split("(")[0], describe_circ2(circ), f"result cannot be inspected: {type(e).__name__}: {e}", "a circuit")
             continue
         ctx.count("validate", "ok")
+        if any(g.name == "Measurement" for g in circ.gates):
+            ctx.count("validate", "ok-with-measurement")
         key = label.split("(")[0].split("[")[0]
         for kind, what in v.items():
             shown, detail = circ, {"target": sorted(target)}
             if entry is not None:
-                detail["earlier_calls_on_the_same_object"] = [c01.describe_circ(c) for c in entry["calls"][:-1][-4:]]
+                detail["earlier_calls_on_the_same_object"] = [describe_circ2(c) for c in entry["calls"][:-1][-4:]]
             elif sum(1 for w in ctx.witnesses if w["key"] == f"{kind}:{key}") < 3:
                 shown = _shrink(circ, lambda c, kind=kind: kind in _violations(make()(c), c.qubit_count, target, rot_only))
-            ctx.witness(f"{kind}:{key}", f"{label} {what}", c01.describe_circ(shown), detail)
+            ctx.witness(f"{kind}:{key}", f"{label} {what}", describe_circ2(shown), detail)
     ctx.evaluations += n_eval
     ctx.extra["oracle_validation"] = {"evaluations": n_eval}
     ctx.search_budget_s = budget_s
@@ -529,6 +599,7 @@ def random_param_recipe(rng, fixed_kinds=None):
     npar = rng.randint(1, 4)
     steps = []
     length = rng.choice([0, 1, 2, 4, 6, 9])
+    cbits = rng.choice([0, 0, 0, 1, 2])
     fixed_kinds = fixed_kinds or FIXED_FOR_PARAM
     p_par = rng.choice([0.0, 0.3, 0.5, 0.8, 1.0])
     for _ in range(length):
@@ -549,13 +620,15 @@ def random_param_recipe(rng, fixed_kinds=None):
                 steps.append([k, rng.sample(range(n), m), [rng.randint(1, 3) for _ in range(m)], fn])
             else:
                 steps.append([k, [rng.choice([0, n - 1, rng.randrange(n)])], [], fn])
+        elif cbits and rng.random() < 0.2:  # the non-unitary gate kind (needs the classical register)
+            steps.append(["fixed", "Measurement", [], [rng.randrange(n)], [], [], [rng.randrange(cbits)]])
         else:
             g = None
             while g is None:
                 g = qp.random_gate(rng, n, rng.choice([k for k in fixed_kinds if n >= {"TOFFOLI": 3, "CNOT": 2, "CZ": 2, "SWAP": 2}.get(k, 1)]))
             name, c, t, prm, ids = g
             steps.append(["fixed", name, list(c), list(t), [c01.nongrid_angle(rng) for _ in prm], list(ids)])
-    return {"type": "linear" if linear else "unbound", "n": n, "cbits": rng.choice([0, 0, 0, 1, 2]), "npar": npar,
+    return {"type": "linear" if linear else "unbound", "n": n, "cbits": cbits, "npar": npar,
             "frozen": rng.random() < 0.35, "steps": steps}
 
 
@@ -572,8 +645,9 @@ def build_param(recipe):
         c = ParametricQuantumCircuit(n, recipe["cbits"])
     for st in recipe["steps"]:
         if st[0] == "fixed":
-            _, name, ctl, tgt, prm, ids = st
-            c.add_gate(QuantumGate(name=name, target_indices=tuple(tgt), control_indices=tuple(ctl), params=tuple(prm), pauli_ids=tuple(ids)))
+            _, name, ctl, tgt, prm, ids = st[:6]
+            c.add_gate(QuantumGate(name=name, target_indices=tuple(tgt), control_indices=tuple(ctl), params=tuple(prm), pauli_ids=tuple(ids),
+                                   classical_indices=tuple(st[6]) if len(st) > 6 else ()))
             continue
         k, tgt, ids, fn = st
         args = []
